@@ -19,7 +19,7 @@ PROPS = {
     'C02': {'gens': ['c02'], 'configs': C(['default', 'int64'])},
     'C03': {'gens': ['c03'], 'configs': C(['default', 'int64'])},
     'C04': {'gens': ['c04'], 'configs': C(['default', 'int64'])},
-    'C05': {'gens': ['c05'], 'configs': C(['default', 'int64', 'int128struct'], ALLCONF + ['o2']),
+    'C05': {'gens': ['c05', 'c05k'], 'translate': ['K:field5x52', 'K:ct'], 'configs': C(['default', 'int64', 'int128struct'], ALLCONF + ['o2']),
             'assumptions': ['x86-64 assembly, safegcd modinv and ecmult internals are tied by correspondence only']},
     'C08': {'gens': ['c08'], 'configs': C(['default', 'int64'])},
     'C09': {'gens': ['c09'], 'configs': C(['default', 'int64'])},
